@@ -12,6 +12,33 @@ METHODS = ["matmul", "rmatmul", "__matmul__", "__rmatmul__", "solve", "inv_quad"
            "__radd__", "__rsub__", "add", "sub", "mul", "__mul__", "__rmul__", "add_diagonal", "add_jitter", "expand", "__getitem__"]
 INDEX_METHODS = ["_get_indices", "_getitem"]
 ROOT = "LinearOperator"
+# delegation chains of the solve-type public methods: which hooks / helpers a method body calls
+DELEG_METHODS = ["solve", "inv_quad", "inv_quad_logdet", "sqrt_inv_matmul", "_solve", "_cholesky_solve", "_inv_matmul",
+                 "_maybe_reshape_rhs", "solve_triangular"]
+DELEG_CALLEES = {"solve", "_solve", "_cholesky_solve", "_inv_matmul", "_maybe_reshape_rhs", "_matmul_broadcast_shape", "inv_quad",
+                 "inv_quad_logdet", "matmul", "_matmul", "_t_matmul", "cholesky_solve", "solve_triangular", "linear_cg", "inverse",
+                 "sqrt_inv_matmul", "contour_integral_quad", "apply", "cholesky", "_cholesky", "expand", "broadcast_shapes"}
+
+
+def _delegation(fn):
+    """sorted list of `callee:U` / `callee:C` — U if some call of it sits in a top-level simple statement of the body that no
+    `return` can precede (it is executed on every path), C otherwise (inside a branch / loop, or after a possible early return)."""
+    seen = {}
+    may_have_returned = False
+    for st in fn.body:
+        simple = not isinstance(st, (ast.If, ast.For, ast.While, ast.With, ast.Try, ast.FunctionDef))
+        for n in ast.walk(st):
+            if isinstance(n, ast.Call):
+                f = n.func
+                name = f.id if isinstance(f, ast.Name) else (f.attr if isinstance(f, ast.Attribute) else None)
+                if name in DELEG_CALLEES:
+                    flag = "U" if (simple and not may_have_returned) else "C"
+                    if seen.get(name) != "U":
+                        seen[name] = flag
+        if any(isinstance(n, ast.Return) for n in ast.walk(st)):
+            may_have_returned = True
+    return sorted(f"{k}:{v}" for k, v in seen.items())
+
 
 
 def lean_str(s):
@@ -121,6 +148,13 @@ def extract():
             names, _ = _calls(fn)
             if m == "_get_indices":
                 overrides.append((c, m + ":fmod", "fmod" in names))
+    delegations = []
+    for c in sorted(set(ops) | {ROOT}):
+        for m in DELEG_METHODS:
+            fn = classes[c]["methods"].get(m)
+            if fn is not None:
+                delegations.append((c, m, _delegation(fn)))
+    extract.delegations = delegations
     base = classes[ROOT]["methods"]
 
     def has(meth, what):
@@ -193,6 +227,9 @@ def generate():
     out += ["", "/-- (guard inside a base-class method / utility, present) -/",
             "def baseGuards : List (String × Bool) := ["]
     out.append(",\n".join(f"  ({lean_str(n)}, {b(g)})" for n, g in base_guards) + "]")
+    out += ["", "/-- (class, solve-type method or hook, the hooks / helpers its body calls: `name:U` = on every path, `name:C` = on some) -/",
+            "def delegations : List (String × String × List String) := ["]
+    out.append(",\n".join(f"  ({lean_str(c)}, {lean_str(m)}, [{', '.join(lean_str(x) for x in d)}])" for c, m, d in extract.delegations) + "]")
     out += ["", "end LinOp.Generated.C19", ""]
     text = "\n".join(out)
     path = os.path.join(LEAN, "LinOp", "Generated", "C19Guards.lean")
